@@ -57,9 +57,12 @@ def table() -> dict[str, Prop]:
              [EF.rule_eff, RR.rule_ctxmgr],
              not_decided="equality of results before and after the failed call (follows from the absence of writes; not separately shown)"))
     reg(Prop("C15", "the render phase's only write to a stream token is the image alt attribute, recomputed from the token's own "
-             "children (idempotent); the fence renderer's scratch token owns a copy of the attrs (RWRITE)",
-             [EF.rule_rwrite],
-             not_decided="as_dict / from_dict / SyntaxTreeNode round trips (value-level equalities over runtime data)"))
+             "children (idempotent); the fence renderer's scratch token owns a copy of the attrs (RWRITE); from_dict hands every "
+             "field to the constructor or assigns it back on every path, and the tree builder pairs by nesting, never by level (SERIAL)",
+             [EF.rule_rwrite, EF.rule_serial],
+             not_decided="equality of the round-tripped values themselves (as_dict / from_dict / SyntaxTreeNode are value-level "
+                         "identities over runtime data; decided is only that no field is dropped structurally and that the tree builder "
+                         "depends on nesting alone)"))
     from .rules import render_rules as RN, url_rules as UR
     reg(Prop("C04", "escape discipline of the HTML renderer: every returned value is built from literals, escapeHtml(...) results, the "
              "literal tag vocabulary and other render methods; raw pass-through only for the two html kinds, which are pushed only "
